@@ -409,6 +409,10 @@ func (p *Polygon) initEdgesAndIndex() {
 	p.numEdges = 0
 	p.cumulativeEdges = nil
 	if p.IsFull() {
+		// The full polygon has no edges, but like every other polygon it
+		// needs an index: all the queries below consult it.
+		p.index = NewShapeIndex()
+		p.index.Add(p)
 		return
 	}
 	const maxLinearSearchLoops = 12 // Based on benchmarks.
